@@ -138,6 +138,17 @@ impl Drop for OwnH {
     }
 }
 
+// A fixed argument given to ret_to!/ret_some_to!: it must be released exactly once, when the call is
+// delivered or when the Ret's closure is released without a call
+struct ArgTok {
+    rid: i64,
+}
+impl Drop for ArgTok {
+    fn drop(&mut self) {
+        ev(format!(r#"{{"e":"argdrop","rid":{}}}"#, self.rid));
+    }
+}
+
 // Ret handle wrapper: logs before the real Ret is dropped un-used
 struct RetH {
     rid: i64,
@@ -445,7 +456,7 @@ impl Node {
     }
 
     // Target of ret_to!
-    fn retm(&mut self, cx: CX![], rid: i64, v: Option<i64>) {
+    fn retm(&mut self, cx: CX![], rid: i64, _at: ArgTok, v: Option<i64>) {
         ev(format!(
             r#"{{"e":"rcall","rid":{},"aid":{},"has":{},"val":{},"now":{}}}"#,
             rid,
@@ -457,7 +468,7 @@ impl Node {
     }
 
     // Prep-style target of a ret_to! (only runs while the actor is in Prep; leaves it there)
-    fn initret(cx: CX![], aid: i64, rid: i64, v: Option<i64>) -> Option<Self> {
+    fn initret(cx: CX![], aid: i64, rid: i64, _at: ArgTok, v: Option<i64>) -> Option<Self> {
         ev(format!(
             r#"{{"e":"rcall","rid":{},"aid":{},"has":{},"val":{},"now":{},"prep":true}}"#,
             rid,
@@ -470,7 +481,7 @@ impl Node {
     }
 
     // Target of ret_some_to!
-    fn retsome(&mut self, cx: CX![], rid: i64, v: i64) {
+    fn retsome(&mut self, cx: CX![], rid: i64, _at: ArgTok, v: i64) {
         ev(format!(
             r#"{{"e":"rcall","rid":{},"aid":{},"has":true,"val":{},"now":{}}}"#,
             rid,
@@ -1143,6 +1154,20 @@ fn exec_op(op: &Value, ctx: &mut Ctx) {
             };
             exec_op(&sub, ctx);
         }
+        "shutdown" => {
+            // Core::shutdown: only a flag for the event loop; must not change what the runtime does
+            if let Some(core) = ctx.core() {
+                core.shutdown(StopCause::Stopped);
+                ev(r#"{"e":"shutdown"}"#.to_string());
+            }
+        }
+        "shutreason" => {
+            if let Some(core) = ctx.core() {
+                let ns = core.not_shutdown();
+                let r = core.shutdown_reason();
+                ev(format!(r#"{{"e":"shutreason","notshut":{},"has":{}}}"#, ns, r.is_some()));
+            }
+        }
         "park" => {
             let oid = get_i(op, "oid");
             let own = w(|w| w.owns.remove(&oid)).and_then(|mut h| h.own.take());
@@ -1380,9 +1405,15 @@ fn exec_op(op: &Value, ctx: &mut Ctx) {
                     if let Ctx::M(n, cx) = ctx {
                         if n.aid == aid && rid % 2 == 0 && kind != "toprep" {
                             let r: Ret<i64> = if kind == "to" {
-                                ret_to!([cx], |this, cx, m: Option<i64>| this.retm(cx, rid, m))
+                                {
+                                    let at = ArgTok { rid };
+                                    ret_to!([cx], |this, cx, m: Option<i64>| this.retm(cx, rid, at, m))
+                                }
                             } else {
-                                ret_some_to!([cx], |this, cx, m: i64| this.retsome(cx, rid, m))
+                                {
+                                    let at = ArgTok { rid };
+                                    ret_some_to!([cx], |this, cx, m: i64| this.retsome(cx, rid, at, m))
+                                }
                             };
                             ev(format!(r#"{{"e":"mkret","rid":{},"kind":"{}","aid":{}}}"#, rid, kind, aid));
                             w(|w| w.rets.insert(rid, RetH { rid, ret: Some(r) }));
@@ -1397,11 +1428,11 @@ fn exec_op(op: &Value, ctx: &mut Ctx) {
                         }
                     };
                     if kind == "to" {
-                        ret_to!([a], retm(rid) as (i64))
+                        ret_to!([a], retm(rid, ArgTok { rid }) as (i64))
                     } else if kind == "toprep" {
-                        ret_to!([a], Node::initret(aid, rid) as (i64))
+                        ret_to!([a], Node::initret(aid, rid, ArgTok { rid }) as (i64))
                     } else {
-                        ret_some_to!([a], retsome(rid) as (i64))
+                        ret_some_to!([a], retsome(rid, ArgTok { rid }) as (i64))
                     }
                 }
                 _ => panic!("harness: bad ret kind"),
@@ -1571,6 +1602,17 @@ fn top_op(op: &Value, stk: &mut Option<Stakker>) {
             let s = stk.take();
             drop(s);
             ev(r#"{"e":"droppedstakker"}"#.to_string());
+        }
+        "dupstakker" => {
+            // an attempt to create a second Stakker while the first is alive: refused (panic, caught here)
+            // unless the build allows several Stakkers per thread; either way the live one is not disturbed
+            if stk.is_some() {
+                let base = base();
+                let r = catch_unwind(AssertUnwindSafe(|| Stakker::new(base)));
+                let _ = PANIC_MSG.with(|p| p.borrow_mut().take());
+                ev(format!(r#"{{"e":"dupstakker","refused":{}}}"#, r.is_err()));
+                drop(r);
+            }
         }
         "restakker" => {
             // A second Stakker on the same thread after the first one is gone:
@@ -1788,9 +1830,24 @@ fn main() {
         w(|w| w.deferrer = Some(d));
         ev(r#"{"e":"new","t":[0,0]}"#.to_string());
         let ops = case["ops"].as_array().unwrap().clone();
+        let unwind_stakker = case.get("unwind_stakker").and_then(|v| v.as_bool()).unwrap_or(false);
         let res = catch_unwind(AssertUnwindSafe(|| {
+            // in some cases the frame that owns the Stakker is itself unwound by the panic:
+            // the Stakker is then dropped while the thread is panicking
+            struct StkGuard<'a>(&'a mut Option<Stakker>, bool);
+            impl Drop for StkGuard<'_> {
+                fn drop(&mut self) {
+                    if self.1 && std::thread::panicking() && self.0.is_some() {
+                        ev(r#"{"e":"dropstakker"}"#.to_string());
+                        drop(self.0.take());
+                        ev(r#"{"e":"droppedstakker"}"#.to_string());
+                    }
+                }
+            }
+            let guard = StkGuard(&mut stk, unwind_stakker);
+            let stk = &mut *guard.0;
             for op in &ops {
-                top_op(op, &mut stk);
+                top_op(op, stk);
             }
             // End of case: release everything
             ev(r#"{"e":"endcase"}"#.to_string());
